@@ -191,6 +191,20 @@ impl<'a> Iterator for Tokenizer<'a> {
 
     #[inline]
     fn next(&mut self) -> Option<Self::Item> {
+        // whitespace and comments yield no token: keep scanning (a loop, so that any amount of
+        // them is skipped without growing the native stack)
+        loop {
+            if let Some(token) = self.scan()? {
+                return Some(token);
+            }
+        }
+    }
+}
+
+impl<'a> Tokenizer<'a> {
+    /// Scans one token. Yields `Some(None)` for skipped input (whitespace, a comment), `None` at the end of the input.
+    #[inline]
+    fn scan(&mut self) -> Option<Option<Token<'a>>> {
         let start = self.offset();
         let token = match self.bump()? {
             // Identifiers
@@ -236,7 +250,7 @@ impl<'a> Iterator for Tokenizer<'a> {
             }
 
             // Whitespace (skipped, because insignificant in Nederlang)
-            c if is_whitespace(c) => return self.next(),
+            c if is_whitespace(c) => return Some(None),
 
             // Multi-char tokens:
             '=' => {
@@ -272,7 +286,7 @@ impl<'a> Iterator for Tokenizer<'a> {
                 // So skip forward until end of line.
                 if self.peek() == Some('/') {
                     self.skip_while(|c, _| c != '\n');
-                    return self.next();
+                    return Some(None);
                 } else {
                     Slash
                 }
@@ -306,7 +320,7 @@ impl<'a> Iterator for Tokenizer<'a> {
             _ => None,
         };
 
-        Some(token)
+        Some(Some(token))
     }
 }
 
